@@ -12,7 +12,7 @@ shutil.copy(f"{src}/{m}.diff", f"{dst}/patch.diff")
 if os.path.isdir(f"{src}/{m}_demo"):
     # demonstration is a script directory (daemon-level seeds): RUN.sh exits 0 when the property holds
     shutil.rmtree(f"{dst}/demo", ignore_errors=True)
-    shutil.copytree(f"{src}/{m}_demo", f"{dst}/demo", ignore=shutil.ignore_patterns("work", "__pycache__", "*.log"))
+    shutil.copytree(f"{src}/{m}_demo", f"{dst}/demo", ignore=shutil.ignore_patterns("work", "run", "__pycache__", "*.log", "*.sock"))
 else:
     shutil.copy(f"{src}/{m}_demo.diff", f"{dst}/demo.diff")
 shutil.copy(f"{src}/{m}.md", f"{dst}/notes.md")
